@@ -309,28 +309,28 @@ theorem collection_translation_rowwise (code : Nat × List Char × List Char) (h
 
 example : ∀ r ∈ [['A', 'T', 'G', 'T', 'A', 'A'], ['A', 'T', 'G', 'C']], Canon r ∧ r ≠ [] := by decide
 
-/-- Old `SequenceCollection.get_translation` (pre-pass `trim_stop_codons`, then `Sequence.get_translation` per row) is
-row-wise the specification — except for `include_stop = trim_stop = True` (known) and for rows ending in TWO stop
-codons, which the pre-pass and the per-row call trim one after the other. -/
+/-- Old `SequenceCollection.get_translation` (pre-pass `trim_stop_codons`, then `Sequence.get_translation` per row with
+`trim_stop and seqs is self`, as repaired in 8fbe3611a) is row-wise the specification, rows ending in TWO stop codons
+included (the remaining stop is rejected) — except for `include_stop = trim_stop = True` (known finding) and for a row that
+is nothing but a stop codon (it would become empty). -/
 theorem old_collection_translation_rowwise_partial (code : Nat × List Char × List Char) (hc : code ∈ oldCodes)
     (rows : List (List Char)) (h : CodonRows rows) (io is_ ts : Bool) (hopt : ¬ (is_ = true ∧ ts = true))
-    (hdouble : ∀ r ∈ rows, endsWithStop code.2.1 r = true →
-      3 < r.length ∧ endsWithStop code.2.1 (r.take (r.length - 3)) = false) :
+    (hlen : ∀ r ∈ rows, endsWithStop code.2.1 r = true → 3 < r.length) :
     oldCollGetTranslation code.2.1 rows io is_ ts = specCollTranslation code.2.1 rows io is_ ts :=
-  old_coll_rowwise code.2.1 (old_codon code hc) rows h io is_ ts hopt hdouble
+  old_coll_rowwise code.2.1 (old_codon code hc) rows h io is_ ts hopt hlen
 
-example : ¬ (false = true ∧ true = true) ∧ CodonRows [['A', 'T', 'G', 'A', 'A', 'A', 'T', 'A', 'A']] := by decide
+example : ¬ (false = true ∧ true = true) ∧ CodonRows [['A', 'T', 'G', 'T', 'A', 'A', 'T', 'A', 'A']] := by decide
 
-/- FULL STATEMENT (not proved): `old_collection_translation_rowwise` = the statement above without `hdouble` (and
-   `hopt`).  False for the code as written: the collection-level pre-pass removes one terminal stop and
-   `Sequence.get_translation(trim_stop=True)` then removes another, so `ATGTAATAA` translates to `M` where the
-   sequence-level call (and the new-style collection) rejects the internal stop. -/
+/- FULL STATEMENT (not proved): `old_collection_translation_rowwise` = the statement above without `hopt`.
+   False for the code as written: see `old_get_translation_counter` (`include_stop` overrides `trim_stop`). -/
 
-/-- Witness: the single row `ATGTAATAA`, default options, code 1: old collection gives `["M"]`, the specification rejects. -/
-theorem old_collection_double_trim_counter : ∃ code ∈ oldCodes,
-    oldCollGetTranslation code.2.1 [['A', 'T', 'G', 'T', 'A', 'A', 'T', 'A', 'A']] false false true ≠
-      specCollTranslation code.2.1 [['A', 'T', 'G', 'T', 'A', 'A', 'T', 'A', 'A']] false false true := by
+/-- The former double trimming (pre-pass and per-row call both trimmed, `ATGTAATAA` gave `M`) is gone: the single row
+`ATGTAATAA` with the default options is rejected, as the sequence-level call and the specification do. -/
+theorem old_collection_double_stop_rejected : ∀ code ∈ oldCodes, code.1 = 1 →
+    oldCollGetTranslation code.2.1 [['A', 'T', 'G', 'T', 'A', 'A', 'T', 'A', 'A']] false false true = .error .alphabetError := by
   decide +kernel
+
+example : ∃ code ∈ oldCodes, code.1 = 1 := by decide
 
 /-! ## complement, reverse complement, ambiguity codes -/
 
